@@ -19,6 +19,8 @@ pub trait DictSubject: Default {
     fn merged(srcs: &[&Self]) -> Self;
     fn wipe(&mut self);
     fn used_bytes(&self) -> usize;
+    /// reserve_regions over the given sources (false: the flavour offers no such call)
+    fn reserve_from(&mut self, srcs: &[&Self]) -> bool;
 }
 impl DictSubject for R {
     fn push_bytes(&mut self, b: &[u8]) -> (usize, usize) {
@@ -29,6 +31,10 @@ impl DictSubject for R {
     }
     fn merged(srcs: &[&Self]) -> Self {
         R::merge_regions(srcs.iter().map(|r| *r))
+    }
+    fn reserve_from(&mut self, srcs: &[&Self]) -> bool {
+        self.reserve_regions(srcs.iter().map(|r| *r));
+        true
     }
     fn wipe(&mut self) {
         self.clear()
@@ -52,6 +58,10 @@ impl DictSubject for SR {
     fn merged(srcs: &[&Self]) -> Self {
         SR::merge_regions(srcs.iter().map(|r| *r))
     }
+    fn reserve_from(&mut self, srcs: &[&Self]) -> bool {
+        self.reserve_regions(srcs.iter().map(|r| *r));
+        true
+    }
     fn wipe(&mut self) {
         self.clear()
     }
@@ -73,6 +83,10 @@ impl DictSubject for FS {
     }
     fn merged(srcs: &[&Self]) -> Self {
         FS::merge_capacity(srcs.iter().map(|r| *r))
+    }
+    fn reserve_from(&mut self, _srcs: &[&Self]) -> bool {
+        // a stack's region is private; FlatStack::reserve_regions wants regions
+        false
     }
     fn wipe(&mut self) {
         self.clear()
@@ -181,6 +195,32 @@ pub fn run_scenario<R: DictSubject, W: Write>(run: u64, ops: &[Value], nslots: u
                     Ok(r) => {
                         slots[d] = DSlot { r, ids: vec![], first_reads: vec![], dead: false };
                         writeln!(out, "{}", json!({"ev": "merge", "run": run, "seq": seq, "d": d + 1, "srcs": op["srcs"], "panic": false})).unwrap();
+                    }
+                }
+            }
+            "reserve" => {
+                let s = op["s"].as_u64().unwrap() as usize - 1;
+                let srcs: Vec<usize> = op["srcs"].as_array().map(|a| a.iter().map(|x| x.as_u64().unwrap() as usize - 1).collect()).unwrap_or_default();
+                if slots[s].dead || srcs.iter().any(|&x| slots[x].dead) {
+                    continue;
+                }
+                let res = {
+                    // sources by reference; when the target is among them, it is left out (no aliasing in safe Rust)
+                    let (tgt, others): (Vec<_>, Vec<_>) = slots.iter_mut().enumerate().partition(|(i, _)| *i == s);
+                    let refs: Vec<&R> = others.iter().filter(|(i, _)| srcs.contains(i)).map(|(_, sl)| &sl.r).collect();
+                    let t = tgt.into_iter().next().unwrap().1;
+                    guarded(|| t.r.reserve_from(refs.as_slice()))
+                };
+                match res {
+                    Err(m) => {
+                        slots[s].dead = true;
+                        writeln!(out, "{}", json!({"ev": "reserve", "run": run, "seq": seq, "s": s + 1, "srcs": op["srcs"], "panic": true, "stable": true, "msg": m.chars().take(80).collect::<String>()})).unwrap();
+                    }
+                    Ok(false) => {}
+                    Ok(true) => {
+                        let sl = &slots[s];
+                        let stable = (0..sl.ids.len()).all(|k| read(&sl.r, sl.ids[k]) == sl.first_reads[k]);
+                        writeln!(out, "{}", json!({"ev": "reserve", "run": run, "seq": seq, "s": s + 1, "srcs": op["srcs"], "panic": false, "stable": stable})).unwrap();
                     }
                 }
             }
@@ -388,6 +428,15 @@ pub fn cmd_gen(seed: u64, count: usize, out: &str) {
             ops.push(json!({"op": "merge", "d": 3, "srcs": [5]}));
             ops.push(json!({"op": "push", "s": 3, "v": x, "n": 2}));
             ops.push(json!({"op": "push", "s": 3, "v": [b'q', b'0', b'0', b'0', b'0'], "n": 1}));
+        }
+        if rng.gen_bool(0.4) {
+            // pre-sizing a populated, coded region from regions with other statistics: nothing may change, and it
+            // continues to code exactly what its own dictionary holds
+            ops.push(json!({"op": "reserve", "s": 5, "srcs": [1 + rng.gen_range(0..nsrc)]}));
+            ops.push(json!({"op": "push", "s": 5, "v": dominant, "n": 1}));
+            ops.push(json!({"op": "push", "s": 5, "v": voc[voc.len() - 1], "n": 1}));
+            ops.push(json!({"op": "reserve", "s": 1, "srcs": [5]}));
+            ops.push(json!({"op": "push", "s": 1, "v": dominant, "n": 1}));
         }
         if rng.gen_bool(0.5) {
             // next generation from the merged region (its own statistics)
